@@ -6,7 +6,7 @@ Init == l = 1
 Watched == {"9001", "9002", "10", "9004", "9005"}
 Next == /\ l <= Len(Rec)
         /\ LET ev == Rec[l]
-               t == Truth(ev.pk, 0, TRUE)
+               t == Truth(ev.pk, NoFilter, TRUE)
                truth == [cdps |-> t.rdhs_seen, pht |-> t.trig[4], version |-> t.rdh_version, chips |-> ev.chips, order |-> ev.order]
                exp == ExpectedCodes(ev.cfg, truth, ev.stave, ev.ob)
                obs == {ev.codes[i] : i \in 1..Len(ev.codes)} \cap Watched
